@@ -133,7 +133,7 @@ def run(ctx):
             t = tm.add_trigger(f"t{i}")
             for c in ts["conds"]:
                 if c["type"] not in condition_dataset.default_attributes:
-                    o = Condition(**{**condition_dataset.default_attributes[0], "condition_type": c["type"]})
+                    o = Condition(**{**copy.deepcopy(condition_dataset.default_attributes[0]), "condition_type": c["type"]})
                     t.conditions.append(o)
                 else:
                     o = t._add_condition(ConditionId(c["type"]) if c["type"] in ConditionId._value2member_map_ else c["type"])
@@ -142,7 +142,7 @@ def run(ctx):
                 o.source_player, o.target_player = c["src"], c["tgt"]
             for e in ts["effs"]:
                 if e["type"] not in effect_dataset.default_attributes:
-                    o = Effect(**{**effect_dataset.default_attributes[0], "effect_type": e["type"]})
+                    o = Effect(**{**copy.deepcopy(effect_dataset.default_attributes[0]), "effect_type": e["type"]})
                     t.effects.append(o)
                 else:
                     o = t._add_effect(EffectId(e["type"]) if e["type"] in EffectId._value2member_map_ else e["type"])
@@ -329,6 +329,7 @@ def run(ctx):
         tm = build(spec)
         before_objs = list(tm.triggers)
         snap = [trig_dump(t) for t in before_objs]
+        shared_before = shared_mutables(tm, collect=True)
         lines = model_cmds(spec, tok, fixed) if record else None
         frm = spec.get("from", 0)
         fails = []
@@ -459,10 +460,33 @@ def run(ctx):
                                 if 0 <= tb < len(before_objs) and 0 <= ta < len(tm.triggers) and tm.triggers[ta] is before_objs[tb]:
                                     continue
                             fails.append(("source_modified:dup" if (op == "tree" and dup_tree) else "source_modified", f"source trigger {i} {key}[{j}].{k}: {b.get(k)!r} -> {a.get(k)!r}"))
+            sm = shared_mutables(tm, shared_before)
+            if sm:
+                fails.append(("fresh", "a copy is not isolated from its source: " + sm))
             obs = f"ok ret={obs_ret} | {dump_state(tm, tok)}"
         if record:
             cmds.extend(lines); expect.extend([None] * (len(lines) - 1) + [obs]); meta.extend([None] * (len(lines) - 1) + [spec])
         return fails, st, changed
+
+    def shared_mutables(tm, known=frozenset(), collect=False):
+        """a mutable object (component, list-valued attribute, order array) reachable from two different triggers of the manager
+        that was not shared before the operation: an in-place edit of one trigger would then change the other"""
+        seen = {}
+        found = set()
+        for ti, t in enumerate(tm.triggers):
+            objs = [(f"trigger.{k}", v) for k, v in vars(t).items() if isinstance(v, (list, dict, set))]
+            for kind, comps in (("condition", t.conditions), ("effect", t.effects)):
+                for j, c in enumerate(comps):
+                    objs.append((f"{kind}[{j}]", c))
+                    objs += [(f"{kind}[{j}].{k}", v) for k, v in vars(c).items() if isinstance(v, (list, dict, set))]
+            for name, o in objs:
+                if id(o) in seen and seen[id(o)][0] != ti:
+                    if collect:
+                        found.add(id(o))
+                    elif id(o) not in known:
+                        return f"{name} of trigger {ti} is the very object {seen[id(o)][1]} of trigger {seen[id(o)][0]}"
+                seen[id(o)] = (ti, name)
+        return found if collect else None
 
     def pos_before(before_objs, t):
         for i, x in enumerate(before_objs):
